@@ -162,7 +162,7 @@ func (r *Runner) cleanup() bool {
 // Watchdog: a single evaluation that exceeds this wall-clock time although the VM step budget is
 // small means the interpreter is stuck inside one instruction; the harness then reports the
 // program and exits with code 97 (the check turns that into a violation with the program in the log).
-var WatchdogSeconds = 20
+var WatchdogSeconds = 90
 
 func (r *Runner) guarded(src string, f func()) {
 	done := make(chan struct{})
